@@ -442,6 +442,34 @@ theorem model_startOffset_eq (low high : Int) (err : Bool) (hz : err = true → 
       Receiver.startOffset low high err := by
   cases err <;> simp [Receiver.startOffset, Receiver.maxReplay] at hz ⊢
   simp [hz]
+
+/-- processEvent of the receiver, translated (which clause of the type switch matches is the input `typeswitch#0`: 0 a record,
+1 an end-of-partition signal, 2 a client error): a record goes to processMessage; a client error changes nothing; an
+end-of-partition signal records the partition in a *set* and takes the number of caught-up partitions from the size of that set
+(so repeated signals of one partition count once — F2); the backlog is released — under the init lock, `initialized` set
+first — exactly when the receiver was not initialised yet and that size has reached the partition count -/
+theorem translated_mrProcessEvent (σ : Env) (hs : σ "typeswitch#0" = 0 ∨ σ "typeswitch#0" = 1 ∨ σ "typeswitch#0" = 2) :
+    let r := run Trans.mrProcessEvent σ
+    let names := r.calls.map (·.1)
+    r.stuck = false ∧ r.ret = none ∧
+    (σ "typeswitch#0" = 0 → r.calls = [("typeswitch e := ev.(type)", []), ("r.processMessage", [σ "e.Value"])]) ∧
+    (σ "typeswitch#0" = 2 → r.calls = [("typeswitch e := ev.(type)", [])] ∧ r.env "r.initialized" = σ "r.initialized") ∧
+    (σ "typeswitch#0" = 1 →
+      r.env "r.partitionEOFs" = σ "len(r.eofPartitions)" ∧
+      ("r.processInitBuffer" ∈ names ↔ (σ "r.initialized" = 0 ∧ σ "len(r.eofPartitions)" ≥ σ "r.partitionCount")) ∧
+      ("r.processInitBuffer" ∈ names → r.env "r.initialized" = 1 ∧ "r.initMutex.Lock" ∈ names) ∧
+      ("r.processInitBuffer" ∉ names → r.env "r.initialized" = σ "r.initialized") ∧
+      "r.processMessage" ∉ names) := by
+  rcases hs with h | h | h <;> by_cases h1 : σ "r.eofPartitions" = 0 <;> by_cases h2 : σ "r.initialized" = 0 <;>
+  by_cases h3 : σ "len(r.eofPartitions)" ≥ σ "r.partitionCount" <;>
+  minigo_simp [Trans.mrProcessEvent, h, h1, h2, h3] <;> (try omega)
+
+/-- one buffered record at the release: delivered iff it is not an acknowledgement -/
+theorem translated_mrInitBufferBody (σ : Env) :
+    (obs Trans.mrInitBufferBody σ).calls =
+      if σ "wireMsg.Acknowledged" = 0 then [("r.deliverMessage", [σ "wireMsg.Message"])] else [] := by
+  by_cases h : σ "wireMsg.Acknowledged" = 0 <;> minigo_simp [Trans.mrInitBufferBody, h]
+
 end Translated
 
 theorem closure_unchanged : GeneratedClo.C10 = ExpectedClo.C10 := by rfl
